@@ -12,7 +12,7 @@ let parse_sizes s =
 let mk data script = { s_data = bytes_of_hex data; s_script = parse_script script }
 
 let xres_s = function XOk -> "Ok" | XUnexpectedEof -> "Err:UnexpectedEof" | XNoFuel -> "NoFuel"
-let sres_s = function SOk -> "Ok" | SInt -> "Err:Interrupted" | SNoFuel -> "NoFuel"
+let sres_s = function SOk -> "Ok" | SNoFuel -> "NoFuel"
 
 let fmt_rx total (l, left) =
   String.concat ";" (List.map (fun (bs, x) -> hex_of_bytes bs ^ ":" ^ xres_s x) l)
@@ -57,7 +57,7 @@ let handle kind a =
             ^ "|" ^ string_of_int (hexlen a.(0) - int_of_nat (b_left st')))
   | "fseq" ->
       let cap = nat_of_int (int_of_string a.(1)) in
-      let ((ps, r), st') = seq_pieces cap (nat_of_int 4096) ([], mk a.(0) a.(2)) in
+      let ((ps, r), ((_, _), st')) = seq_pieces cap (nat_of_int 4096) ((true, false), ([], mk a.(0) a.(2))) in
       Some (String.concat ";" (List.map hex_of_bytes ps) ^ "|" ^ sres_s r
             ^ "|" ^ string_of_int (hexlen a.(0) - int_of_nat (b_left st')))
   | "fidx" ->
